@@ -144,13 +144,29 @@ def repeat_parent_styles(spec, n):
   return spec
 
 
+def anonymous_animated_span(spec, on):
+  """a paragraph whose only child is a span without xml:id, timing, region, styles or xml:space / xml:lang of its own - the span the
+  reader creates for the text of <p>text</p> - but carrying an animation step, which the writer must still write"""
+  if not on or spec["body"] is None:
+    return spec
+  ps = [n for n in gen_model.walk(spec["body"]) if n["kind"] == "p"]
+  if not ps:
+    return spec
+  p = ps[(on - 1) % len(ps)]
+  p["kids"] = [dict(kind="span", id="anon%d" % on, anon=True, begin=None, end=None, region=None, styles={},
+                    anims=[("Color", None, None, styles.ColorType((255, 0, 0, 255)))], space=p["space"], lang=p["lang"],
+                    kids=[dict(kind="text", id=None, begin=None, end=None, region=None, styles={}, anims=[], kids=[], space="default", lang="",
+                               text="w%d" % (900 + on))])]
+  return spec
+
+
 def cases(prof, exact):
   def strat(tier):
     cfgs = st.tuples(st.sampled_from(FORMATS), st.one_of(st.none(), st.sampled_from(FPS)))
     choice = st.one_of(st.none(), st.tuples(st.integers(0, len(SPECIAL_OVERRIDES) - 1), st.integers(0, 1)))
-    return st.builds(lambda spec, cfg, ch, rep: {"spec": repeat_parent_styles(steer_special(scale_times(spec, unit_of(cfg)) if exact else spec, ch),
-                                                                               rep), "cfg": cfg, "exact": exact},
-                     gen_model.docspecs(prof), cfgs, choice, st.sampled_from([0, 0, 1, 2, 4]))
+    return st.builds(lambda spec, cfg, ch, rep, anon: {"spec": anonymous_animated_span(repeat_parent_styles(steer_special(
+      scale_times(spec, unit_of(cfg)) if exact else spec, ch), rep), anon), "cfg": cfg, "exact": exact},
+                     gen_model.docspecs(prof), cfgs, choice, st.sampled_from([0, 0, 1, 2, 4]), st.sampled_from([0, 0, 0, 0, 0, 1, 2]))
   return strat
 
 
@@ -333,6 +349,9 @@ def check(case, res):
   except Exception:  # pylint: disable=broad-except
     by_id = {}
   for n in nodes:
+    if n.get("anon"):
+      res.label("span-without-id-carrying-animation")
+      continue
     if n["kind"] != "text" and n["id"] not in by_id:
       res.fail("writer-dropped-element:" + n["kind"], "%s %s is not in the written XML" % (n["kind"], n["id"]))
   # times written in the XML
